@@ -12,3 +12,5 @@ import SkModel.Proofs.TaskProj
 import SkModel.Theorems.C01
 import SkModel.Proofs.SeqCore
 import SkModel.Theorems.C03
+import SkModel.Proofs.StoreInv
+import SkModel.Theorems.C15
